@@ -24,12 +24,12 @@ type orgbController struct {
 }
 
 type orgbFaults struct {
-	RefuseDials  int `json:"refuse_dials"`   // the first k connection attempts are refused
-	DialDelayMs  int `json:"dial_delay_ms"`  // accepting a connection takes this long
-	ReplyDelayUs int `json:"reply_delay_us"` // answering a count / controller request takes this long
-	FrameDelayUs int `json:"frame_delay_us"` // consuming one UpdateLEDs packet takes this long
-	DropAfter    int `json:"drop_after"`     // close the connection after this many frames (0 = never)
-	NoSysfs      bool `json:"no_sysfs"`      // the hidraw entry of the target is missing in sysfs
+	RefuseDials  int  `json:"refuse_dials"`   // the first k connection attempts are refused
+	DialDelayMs  int  `json:"dial_delay_ms"`  // accepting a connection takes this long
+	ReplyDelayUs int  `json:"reply_delay_us"` // answering a count / controller request takes this long
+	FrameDelayUs int  `json:"frame_delay_us"` // consuming one UpdateLEDs packet takes this long
+	DropAfter    int  `json:"drop_after"`     // close the connection after this many frames (0 = never)
+	NoSysfs      bool `json:"no_sysfs"`       // the hidraw entry of the target is missing in sysfs
 }
 
 type orgbFrame struct {
